@@ -214,6 +214,9 @@ def run_selection(run, case, p, R, unit, delta, rel_tol, all_pairs, exact, via):
     U = {"f": Unit.frames, "m": Unit.meters, "r": Unit.radians, "d": Unit.degrees}[unit]
     # the mode flag as callers spell it: Python bool, numpy bool (result of a comparison), 0 / 1
     flag = [bool(all_pairs), np.bool_(all_pairs), int(all_pairs)][(n + int(delta * 3)) % 3]
+    if unit == "f" and via == "metrics":
+        # the frame delta as callers spell it (the signature says float, RPE's own default is 1.0)
+        delta = [int(delta), float(delta), np.float64(delta), np.int64(delta)][(n + int(delta)) % 4]
     with core.quiet():
         if via == "metrics":
             out = contracts.outcome_of(metrics.id_pairs_from_delta, poses, delta, U, rel_tol, flag)
